@@ -188,6 +188,13 @@ class CGetInt(Contract):
             is_signed = field(s, 'is_signed')
         if byte_order is None or is_signed is None:
             raise Raised(ExcObj(AssertionError, ("byte_order not defined",)))
+        num_bytes = ctx.concretize(num_bytes)
+        if not isinstance(num_bytes, int) and ctx.is_true(And(num_bytes >= 1, num_bytes <= 8)):
+            # small symbolic width (e.g. a 1- or 2-byte table field): case split
+            for k in range(1, 9):
+                if ctx.decide(num_bytes == k):
+                    num_bytes = k
+                    break
         v = CGetMem().model(it, s, num_bytes)
         from pyvc import ops
         r = ops.int_from_bytes(ctx, v, byte_order, is_signed)
